@@ -168,7 +168,8 @@ def main():
         n_real_err = len({(d['owner'], d['clause']) for d in real})
         known_here = [d for d in real if match_known(known, pid, d)]
         # obligations that fail because of a recorded finding are listed separately (known_findings_hit), not counted
-        obligations += n_ver + len({d['owner'] for d in real if d not in known_here})
+        scope0 = prop.get('functions', {}).get(un)
+        obligations += n_ver + len({d['owner'] for d in real if d not in known_here and (scope0 is None or d['owner'] in scope0)})
         discharged += n_ver
         if n_ver == 0:
             undecided(f'unit {un}: zero obligations (vacuity guard i)')
